@@ -437,8 +437,8 @@ MUTANTS = [
          replace="                    if (nOpCount > MAX_OPS_PER_SCRIPT)\n                        return set_error(serror, SCRIPT_ERR_OP_COUNT);\n                    nOpCount += nKeysCount;",
          expect=["R10.3:keycount-added-before-compare"]),
     dict(name="drop-opcount-reset-at-p2sh-switch", file="debugger/interpreter.cpp",
-         find="            env.curr_op_seq++;\n            env.nOpCount = 0; // reset to avoid hitting limit prematurely!\n            return true;",
-         replace="            env.curr_op_seq++;\n            return true;", expect=["R10.6:opcount-reset"]),
+         find="            env.curr_op_seq++;\n            env.nOpCount = 0; // reset to avoid hitting limit prematurely!\n            env.opcode_pos = 0;\n            return true;",
+         replace="            env.curr_op_seq++;\n            env.opcode_pos = 0;\n            return true;", expect=["R10.6:opcount-reset"]),
     dict(name="script-size-for-tapscript-again", file="debugger/interpreter.cpp",
          find="if ((sigversion == SigVersion::BASE || sigversion == SigVersion::WITNESS_V0) && script.size() > MAX_SCRIPT_SIZE) {\n        set_error(serror, SCRIPT_ERR_SCRIPT_SIZE);\n        operational",
          replace="if (script.size() > MAX_SCRIPT_SIZE) {\n        set_error(serror, SCRIPT_ERR_SCRIPT_SIZE);\n        operational", expect=["R10.4:tapscript-exempt:MAX_SCRIPT_SIZE@InterpreterEnv"]),
@@ -446,3 +446,27 @@ MUTANTS = [
          find="        if (vch.size() > nMaxNumSize) {\n            throw scriptnum_error(\"script number overflow\");\n        }\n",
          replace="", expect=["R10.2b:enforced=nMaxNumSize"]),
 ]
+
+
+def AUTO_MUTANTS(ctx):
+    """for every comparison against a limit constant: `>` -> `>=`   (enumerated from the fact base)"""
+    fb = ctx.facts
+    spec = json.load(open(os.path.join(VERIF, "spec/limits.json")))
+    LIM = spec["limits"]
+    out = []
+    seen = set()
+    for f in fb.funcs.values():
+        for n in f.nodes():
+            cp = cmp_parts(n)
+            if not cp or n["k"] != "bin":
+                continue
+            op, a, b = cp
+            if op != ">" or not limit_refs(b, LIM) or n.get("mac"):
+                continue
+            fl = n.get("f", f.file)
+            key = (fl, n["l"], n["c"])
+            if key in seen:
+                continue
+            seen.add(key)
+            out.append(dict(name="auto:ge:%s@%s:%d" % (limit_refs(b, LIM)[0], f.short, n["l"]), file=fl, edit=(n["l"], n["c"], ">", ">="), expect=["R10.2:cmp="]))
+    return out
